@@ -92,7 +92,7 @@ func vfIsBoolName(s string) bool {
 }
 func vfIsConstName(s string) bool { return len(s) > 1 && s[0] == 'K' && (s[1] == 'B' || s[1] == 'I') }
 func vfIsVarName(s string) bool {
-	if len(s) < 2 || (s[0] != 'b' && s[0] != 'i') {
+	if len(s) < 2 || (s[0] != 'b' && s[0] != 'i' && s[0] != 's') {
 		return false
 	}
 	for i := 1; i < len(s); i++ {
@@ -172,7 +172,15 @@ func (w *vfWorld) load(v *vfVar) {
 		return
 	}
 	v.loaded = true
-	if v.isBool {
+	if v.name[0] == 's' {
+		// a string variable: one of two texts, chosen arbitrarily
+		if vfBool("val." + v.name + w.suffix) {
+			v.val = "x"
+		} else {
+			v.val = "y"
+		}
+		v.wrong = int64(5)
+	} else if v.isBool {
 		v.val = vfBool("val." + v.name + w.suffix)
 		v.wrong = int64(5)
 	} else {
